@@ -1799,6 +1799,21 @@ impl SysComp {
                             mon.count("proof-stamped");
                         }
                     }
+                    // C02: a cumulative SRT ACK retires every number at or below it ON EVERY LINK, whichever link it
+                    // arrives on and whatever ACKs came before (a duplicate ACK after a re-send must still sweep the
+                    // link that carried the re-send). The number is read from the datagram bytes.
+                    if pt == SRT_TYPE_ACK && data.len() >= 20 && !reset.iter().any(|r| *r) {
+                        let a = u32::from_be_bytes([data[16], data[17], data[18], data[19]]);
+                        if a <= 0x7fff_ffff {
+                            mon.count("srt-ack-datagram");
+                            for (j, c) in w.links.iter().enumerate() {
+                                let left: Vec<i32> = c.verif_packet_log().iter().map(|(s, _)| *s).filter(|s| *s >= 0 && *s <= a as i32).collect();
+                                if !left.is_empty() {
+                                    mon.fail("C02", "sys-cumack-left-older", format!("link {} still has {:?} outstanding after a cumulative SRT ACK at {a} arrived on link {} (pre: this link held {:?})", c.conn_id, &left[..left.len().min(8)], w.links[i].conn_id, pre.get(j).map(|p| p.log.iter().filter(|s| **s <= a as i32).take(8).collect::<Vec<_>>())));
+                                }
+                            }
+                        }
+                    }
                     // C10 / C06 window rules over ONE SRTLA ACK datagram, replayed entry by entry on a ghost:
                     // +29 on the link that held the number (arrival link first) only while its remaining
                     // in-flight x 1000 exceeds its window, +1 on every connected link that has heard
